@@ -2414,3 +2414,54 @@ M("C01", "r6/alignment-drops-single-unit-alignments", ALI,
 B("C01", "r6/alignment-keeps-tuple", ALI,
   "        self.unitary_alignments = list(unitary_alignments)",
   "        self.unitary_alignments = list(tuple(unitary_alignments))", "")
+
+# refactored-and-broken twins of the shapes learnt from the supporting-code refactorings (batches J, K)
+M("C10", "rf/take-until-limit-head-under-limit-test", ALI,
+  """        for i, unitary_alignment in enumerate(leftmost_first):
+            # the leftmost unitary alignment is always taken, so that the fast alignment progresses
+            if i > 0 and unitary_alignment.bounds[1] > x_limit:
+                break
+            yield unitary_alignment""",
+  """        if not leftmost_first:
+            return
+        if leftmost_first[0].bounds[1] <= x_limit:
+            yield leftmost_first[0]
+        for unitary_alignment in leftmost_first[1:]:
+            if unitary_alignment.bounds[1] > x_limit:
+                break
+            yield unitary_alignment""", "R-C10-1", "head-first shape, but the head is yielded only under the limit: may yield nothing")
+M("C13", "rf/guarded-bound-update-wrong-direction", CONT,
+  """        self.bound_inf = min(self.bound_inf, segment.start)
+        self.bound_sup = max(self.bound_sup, segment.end)""",
+  """        if segment.start > self.bound_inf:
+            self.bound_inf = segment.start
+        if segment.end > self.bound_sup:
+            self.bound_sup = segment.end""", "R-C13-3", "the lower bound moves up")
+B("C13", "rf/guarded-bound-update", CONT,
+  """        self.bound_inf = min(self.bound_inf, segment.start)
+        self.bound_sup = max(self.bound_sup, segment.end)""",
+  """        if segment.start < self.bound_inf:
+            self.bound_inf = segment.start
+        if self.bound_sup < segment.end:
+            self.bound_sup = segment.end""", "")
+M("C13", "rf/bool-search-loop-wrong-polarity", CONT,
+  "        return not all(len(annotations) == 0 for annotations in self._annotations.values())",
+  """        for annotations in self._annotations.values():
+            if len(annotations) == 0:
+                return True
+        return False""", "R-SUP", "true iff some annotator has no unit")
+M("C15", "rf/gap-across-annotators-swapped-branches", SAM,
+  """            if annotator != current_annotator:
+                current_annotator = annotator
+            else:
+                gaps.append(unit.segment.start - last_unit.segment.end)""",
+  """            if annotator == current_annotator:
+                current_annotator = annotator
+            else:
+                gaps.append(unit.segment.start - last_unit.segment.end)""", "R-C15-3", "gaps measured across annotators only")
+M("C17", "rf/soft-ctor-keywords-flag-dropped", ALI,
+  "        super().__init__(unitary_alignments, continuum, check_validity, disorder)",
+  "        super().__init__(unitary_alignments, continuum=continuum, check_validity=False, disorder=disorder)", "R-C17-4")
+M("C05", "rf/num-units-map-of-wrong-function", CONT,
+  "        return sum(len(units) for units in self._annotations.values())",
+  "        return sum(map(bool, self._annotations.values()))", "R-SUP", "counts the annotators that have units")
